@@ -131,6 +131,23 @@ func c18Cells(tier string) []Cell {
 		}
 	}
 
+	// ... and with ObserveMutability switched on (builds that return a new or the same value): the option adds its own
+	// metric and must leave all the others alone (appended: the indices of the cells above stay what they were)
+	for front := 0; front < 3; front++ {
+		for bits := 0; bits < 32; bits++ {
+			for _, init := range []string{"A", "F", "S", "T"} {
+				for _, sc := range []string{"o", "s"} {
+					c := FCfg{
+						Front: front, SU: boolBits(bits, 0), SR: boolBits(bits, 1), FH: boolBits(bits, 2), MS: boolBits(bits, 3),
+						FTNeg: boolBits(bits, 4), Init: init, FailC: "0", Script: sc, Threads: [][]GOp{{{Key: 0}}}, Tags: []string{"stats"}, ObsMut: true,
+					}
+
+					cells = append(cells, Cell{ID: c18Cell{Mode: "failover", F: &c}.id()})
+				}
+			}
+		}
+	}
+
 	return cells
 }
 
@@ -605,7 +622,7 @@ func init() {
 			"(backends, concurrent) DeleteAll / ExpireAll next to Write(new key) / Delete / Read programs, all schedules: cache_delete equals the entries actually removed, cache_write the writes, read metrics the reads; " +
 			"(backends, cleanup) a cycle that deletes expired entries and evicts (sizes 0..7 x limit x fraction x strategy): cache_evict equals the evictions, cache_delete and the read/write metrics do not move; " +
 			"(Failover, lone Get) the whole decision table of C03 x 3 front-ends, all schedules; (Failover, concurrent) 2-3 Get threads on two keys incl. SkipRead, all schedules within the bound; " +
-			"at quiescence hit+miss+expired = non-skipped backend reads, cache_write = backend writes, cache_build / cache_failed = builder invocations / failures, cache_refreshed = stale re-stores, failure-cache writes = failures",
+			"at quiescence hit+miss+expired = non-skipped backend reads, cache_write = backend writes, cache_build / cache_failed = builder invocations / failures, cache_refreshed = stale re-stores, failure-cache writes = failures (the lone-Get table also with ObserveMutability on)",
 		Assumptions: []string{
 			"no fault injection: an injected write failure would make 'number of writes' ambiguous",
 			"reads of the internal failure cache are not observable from outside Failover; only its writes are accounted",
